@@ -208,7 +208,7 @@ class Frame:
     def ev(self, p: Path, kind, **kw) -> Event:
         e = Event(kind, guards=tuple(self.guards), depth=self.depth, via=self.via,
                   file=self.module.relpath, in_comp=bool(self.in_comp), **kw)
-        e.env = dict(p.env)
+        e.env = dict(p.env) if self.guards else None
         e.ncond = len(p.conds)
         e.whole = self.ctx.whole > 0
         p.events.append(e)
@@ -233,12 +233,27 @@ class Frame:
         """Execute ``fn`` with parameters bound; returns caller-visible paths
         (status ret|raise|live->ret None)."""
         callee = Path(bound, p.events, p.conds)
+        is_gen = any(isinstance(x, (ast.Yield, ast.YieldFrom)) for x in _walk_own(fn))
         paths = self.block(fn.body, [callee])
         out = []
         for q in paths:
             if q.status in ("live", "break", "continue"):
                 q.status = "ret"
                 q.ret = Const(None)
+            if is_gen and q.status == "ret":
+                ys = q.env.get("<yields>")
+                items = list(getattr(ys, "items", []))
+                flat: List[Term] = []
+                for it in items:
+                    if isinstance(it, Sym) and it.head == "star":
+                        flat.extend(iter_elems(it.args[0]))
+                    else:
+                        flat.append(it)
+                uniq: List[Term] = []
+                for it in flat:
+                    if it not in uniq:
+                        uniq.append(it)
+                q.ret = Coll(uniq[0] if len(uniq) == 1 else (Sym("oneof", tuple(uniq)) if uniq else Opaque("empty")))
             out.append(q)
         return dedupe(out)
 
@@ -323,7 +338,29 @@ class Frame:
         if isinstance(st, ast.Continue):
             p.status = "continue"
             return [p]
-        if isinstance(st, (ast.Pass, ast.Import, ast.ImportFrom, ast.Global, ast.Nonlocal)):
+        if isinstance(st, ast.ImportFrom):
+            # function-level import (used to break import cycles): bind the names
+            base = self.module.name.split(".")
+            is_pkg = self.module.path.endswith("__init__.py")
+            if st.level:
+                up = st.level - (1 if is_pkg else 0)
+                base = base[: len(base) - up] if up else base
+                target = ".".join(base + ([st.module] if st.module else []))
+            else:
+                target = st.module or ""
+            tm = self.repo.modules.get(target)
+            if tm is not None:
+                for a in st.names:
+                    r = self.repo.resolve_name(tm, a.name)
+                    local = a.asname or a.name
+                    if r and r[0] == "class":
+                        p.env[local] = Sym("class", text=r[1].qualname)
+                    elif r and r[0] == "func":
+                        p.env[local] = Fn("func", (None, None, None, r[1].module), r[1].node)
+                    elif r and r[0] == "var":
+                        p.env[local] = self.global_term(r[2], a.name, r[1])
+            return [p]
+        if isinstance(st, (ast.Pass, ast.Import, ast.Global, ast.Nonlocal)):
             return [p]
         if isinstance(st, (ast.FunctionDef, ast.AsyncFunctionDef)):
             p.env[st.name] = Fn("func", (self.cls, self.selfterm, self.selfattrs, self.module), st, frame=dict(p.env))
@@ -470,21 +507,36 @@ class Frame:
         return c
 
     @staticmethod
+    def norm_cond(k: str, pol: bool = True):
+        """(base term key, polarity) with ``not`` / ``is not`` folded into the polarity."""
+        changed = True
+        while changed:
+            changed = False
+            if k.startswith("unop:Not(") and k.endswith(")"):
+                k, pol, changed = k[len("unop:Not("):-1], not pol, True
+            elif k.startswith("cmp:IsNot("):
+                k, pol, changed = "cmp:Is(" + k[len("cmp:IsNot("):], not pol, True
+            elif k.startswith("cmp:NotIn("):
+                k, pol, changed = "cmp:In(" + k[len("cmp:NotIn("):], not pol, True
+            elif k.startswith("cmp:NotEq("):
+                k, pol, changed = "cmp:Eq(" + k[len("cmp:NotEq("):], not pol, True
+        return k, pol
+
+    @staticmethod
     def implied(q: Path, tt: Term) -> Optional[bool]:
         """Polarity of a pure test already decided earlier on this path."""
-        k = tt.key()
-        if "call" in k or "Val(" in k or "Opaque" in k or "elem(" in k:
+        k, flip = Frame.norm_cond(tt.key(), True)
+        k2 = k
+        for pure in ("call:bool(", "call:isinstance(", "call:callable(", "call:len(", "call:hasattr("):
+            k2 = k2.replace(pure, "pure(")
+        if "call" in k2 or "Val(" in k or "Opaque" in k or "elem(" in k:
             return None
-        alt = None
-        if k.startswith("cmp:IsNot("):
-            alt = "cmp:Is(" + k[len("cmp:IsNot("):]
-        elif k.startswith("cmp:Is("):
-            alt = "cmp:IsNot(" + k[len("cmp:Is("):]
         for c in q.conds:
-            if c[2] == k:
-                return c[1]
-            if alt is not None and c[2] == alt:
-                return not c[1]
+            if not c[2]:
+                continue
+            ck, cpol = Frame.norm_cond(c[2], c[1])
+            if ck == k:
+                return cpol if flip else (not cpol)
         return None
 
     def do_if(self, st: ast.If, p: Path) -> List[Path]:
@@ -538,19 +590,20 @@ class Frame:
 
     def _for_body(self, st, q: Path, elems: List[Term], out: List[Path]) -> None:
         pending = [q]
+        natural: List[Path] = []  # paths on which the iterable is exhausted
         n_iter = self.ctx.unroll if len(elems) == 1 else len(elems)
         for i in range(n_iter):
             el = elems[0] if len(elems) == 1 else elems[i]
             nxt = []
             for r in pending:
                 if len(elems) == 1:
-                    out.append(r.fork())  # loop exits before this iteration
+                    natural.append(r.fork())  # the loop ends before this iteration
                 body_in = r.fork()
                 self.assign(st.target, el, body_in, st)
                 for b in self.block(st.body, [body_in]):
                     if b.status == "break":
                         b.status = "live"
-                        out.append(b)
+                        out.append(b)  # ``else`` is skipped after a break
                     elif b.status == "continue":
                         b.status = "live"
                         nxt.append(b)
@@ -559,7 +612,7 @@ class Frame:
                     else:
                         out.append(b)
             pending = nxt
-        for r in pending:
+        for r in natural + pending:
             if st.orelse:
                 out.extend(self.block(st.orelse, [r]))
             else:
@@ -605,7 +658,11 @@ class Frame:
                 e = b.events[k]
                 if e.kind not in ("op", "call") or e.failed:
                     continue
-                pref = tuple(x.key() for x in b.events[n0:k + 1])
+                if e.depth <= self.depth + 1:
+                    pref = tuple(x.key() for x in b.events[n0:k + 1])
+                else:
+                    # deep inside inlined code: one handler path per distinct failing event
+                    pref = ("deep", e.key())
                 if pref in seen_prefix:
                     continue
                 seen_prefix.add(pref)
@@ -719,12 +776,34 @@ class Frame:
             if r[0] == "func":
                 return [(p, Fn("func", (None, None, None, r[1].module), r[1].node))]
             if r[0] == "var":
-                return [(p, Sym("global", text=f"{r[2].name}.{e.id}"))]
+                t = self.global_term(r[2], e.id, r[1])
+                return [(p, t)]
             if r[0] == "module":
                 return [(p, Sym("module", text=r[1]))]
             if r[0] == "external":
                 return [(p, Sym("ext", text=r[1]))]
         return [(p, Sym("name", text=e.id))]
+
+    def global_term(self, module: Module, name: str, init) -> Term:
+        """Term of a module-level variable: node constants such as
+        ``_EFFECTS_DISABLED = Option(...)`` are resolved by interpreting the
+        initialiser once (in module context); anything else stays symbolic."""
+        key = f"{module.name}.{name}"
+        cache = self.ctx.__dict__.setdefault("global_terms", {})
+        if key in cache:
+            return cache[key]
+        cache[key] = Sym("global", text=key)
+        if isinstance(init, ast.Call) and self.depth < self.ctx.max_depth:
+            f0 = init.func.value if isinstance(init.func, ast.Subscript) else init.func
+            r = self.repo.resolve_expr(module, f0) if isinstance(f0, (ast.Name, ast.Attribute)) else None
+            if r and r[0] == "class" and (r[1].is_subclass_of("Evaluatable") or r[1].is_subclass_of("Effect")):
+                fr = Frame(self.ctx, module, None, None, None, self.depth + 1, self.via, f"<module {module.name}>")
+                res = fr.expr(init, Path())
+                terms = [t for q, t in res if q.status == "live"]
+                if len(terms) == 1 and isinstance(terms[0], New):
+                    terms[0].global_name = key
+                    cache[key] = terms[0]
+        return cache[key]
 
     def e_Attribute(self, e, p):
         v = e.value
@@ -775,6 +854,15 @@ class Frame:
         if isinstance(t, Child):
             if attr in XOPS or attr in ("bind", "apply", "fingerprint", "values", "items", "__rshift__"):
                 return [(p, Bound(t, attr))]
+            root = getattr(self.ctx, "root_cls", None)
+            if t.key() == SELF.key() and root is not None and self.selfterm is not t:
+                # the analysed object handed to a plain function: its attributes
+                # are the same children as seen through ``self``
+                fr = Frame(self.ctx, root.module, root, t, None, self.depth, self.via, self.fname)
+                fr.guards = self.guards
+                env_name = "<root>"
+                p.env[env_name] = t
+                return fr.self_attr(attr, p, node)
             c = Child(f"{t.path}.{attr}")
             return [(p, c)]
         if isinstance(t, Sym) and t.head == "module":
@@ -784,6 +872,8 @@ class Frame:
                     return [(p, Sym("class", text=r[1].qualname))]
                 if r[0] == "func":
                     return [(p, Fn("func", (None, None, None, r[1].module), r[1].node))]
+                if r[0] == "var":
+                    return [(p, self.global_term(r[2], attr, r[1]))]
             return [(p, Sym("global", text=f"{t.text}.{attr}"))]
         if isinstance(t, Sym) and t.head == "class":
             ci = self.repo.classes.get(t.text)
@@ -819,6 +909,8 @@ class Frame:
             if isinstance(e.slice, ast.Slice) and isinstance(t, (Child, Coll, Seq)):
                 out.append((q, t))
             elif isinstance(t, Child):
+                if isinstance(e.ctx, ast.Load) and getattr(t, "kind", "other") == "other":
+                    self.ev(q, "call", text="getitem", target=t, args=(idx,), line=e.lineno)
                 c = Child(t.path + "[*]")
                 c.index = idx
                 c.kind = "node" if getattr(t, "kind", "") == "nodes" else getattr(t, "kind", "other")
@@ -830,6 +922,8 @@ class Frame:
             elif isinstance(t, Sym) and t.head == "class":
                 out.append((q, t))  # Option[Options] -> Option
             else:
+                if isinstance(e.ctx, ast.Load) and isinstance(t, Sym) and t.head in ("global", "name", "attr:__dict__") or (isinstance(t, Sym) and t.head.startswith("attr:")):
+                    self.ev(q, "call", text="getitem", target=t, args=(idx,), line=e.lineno)
                 out.append((q, Sym("getitem", (t, idx))))
         return out
 
@@ -950,10 +1044,20 @@ class Frame:
         return self.expr(e.value, p)
 
     def e_Yield(self, e, p):
-        return self.expr(e.value, p) if e.value else [(p, Const(None))]
+        out = []
+        for q, t in (self.expr(e.value, p) if e.value else [(p, Const(None))]):
+            if q.status == "live":
+                q.env["<yields>"] = Seq(list(getattr(q.env.get("<yields>"), "items", [])) + [t])
+            out.append((q, Const(None)))
+        return out
 
     def e_YieldFrom(self, e, p):
-        return self.expr(e.value, p)
+        out = []
+        for q, t in self.expr(e.value, p):
+            if q.status == "live":
+                q.env["<yields>"] = Seq(list(getattr(q.env.get("<yields>"), "items", [])) + [Sym("star", (t,))])
+            out.append((q, Const(None)))
+        return out
 
     # comprehensions ------------------------------------------------------
     def _comp(self, e, elts: List[ast.expr], p: Path, kind: str):
@@ -1251,19 +1355,41 @@ class Frame:
             if r is None or r[0].name in ("Evaluatable", "Cacheable", "Validatable", "Explainable", "Transformation"):
                 self.ev(p, "op", op=op, target=target, opts=opts, line=line)
                 return [(p, Val(op, target))]
-            limit = 4 if _has_child_leaf(target) else 1
-            if self.ctx.unfolding.count(tag) >= limit or self.depth >= self.ctx.max_depth:
+            tkey = (tag[0], tag[1], target.key())
+            seen_terms = self.ctx.__dict__.setdefault("unfolding_terms", [])
+            outer_objs = self.ctx.__dict__.setdefault("unfolding_objs", [])
+            if _has_child_leaf(target):
+                limit = 4
+            elif any(_is_subterm(target, o) for o in outer_objs):
+                limit = 4  # structural descent into a field of a term being unfolded terminates
+            else:
+                limit = 1
+            if self.ctx.unfolding.count(tag) >= limit or tkey in seen_terms or self.depth >= self.ctx.max_depth:
                 e = self.ev(p, "op", op=op, target=target, opts=opts, line=line)
                 e.text = "atomic"
                 return [(p, Val(op, target))]
             owner, fn = r
+            self.ev(p, "unfold", op=op, target=target, opts=opts, line=line)
             self.ctx.unfolding.append(tag)
+            seen_terms.append(tkey)
+            outer_objs.append(target)
             try:
-                return self.inline(owner.module, owner, fn, target, target.attrs,
+                res_ = self.inline(owner.module, owner, fn, target, target.attrs,
                                    self.bind_params(fn, True, pos, kw, owner.module), p, node,
                                    via=self.via + (target.cls.name,), prebound=True)
             finally:
                 self.ctx.unfolding.pop()
+                seen_terms.pop()
+                outer_objs.pop()
+            if self.ctx.unroll >= 2 and not _has_child_leaf(target) and len(res_) > 2:
+                # deep unrolling: a node that mentions no child of the analysed object
+                # contributes only its outcome (value or failure), one representative each
+                keep = {}
+                for q_, t_ in res_:
+                    k_ = (q_.status, q_.exc[0] if q_.exc else None)
+                    keep.setdefault(k_, (q_, t_))
+                res_ = list(keep.values())
+            return res_
         if target is self.selfterm and isinstance(target, Child) and self.cls is not None and op in OPS:
             r = self.cls.find_method(op)
             tag = (self.cls.qualname, op)
@@ -1474,6 +1600,13 @@ class Frame:
         line = getattr(node, "lineno", 0)
         is_nodeish = ci.is_subclass_of("Evaluatable") or ci.is_subclass_of("Effect")
         if not is_nodeish:
+            r0 = ci.find_method("__init__")
+            if r0 is not None and not any(isinstance(x, Sym) and x.head == "star" for x in pos) and "**" not in kw and r0[1].args.vararg is None and r0[1].args.kwarg is None:
+                b = self.bind_params(r0[1], True, pos, kw, r0[0].module)
+                names = [x.arg for x in r0[1].args.posonlyargs + r0[1].args.args][1:] + [x.arg for x in r0[1].args.kwonlyargs]
+                canon = tuple(b.get(n, Opaque(n)) for n in names)
+                self.ev(p, "call", text="new " + ci.name, args=canon, line=line)
+                return [(p, Sym("new:" + ci.name, canon))]
             self.ev(p, "call", text="new " + ci.name, args=tuple(pos) + tuple(Sym("kw:" + k, (v,)) for k, v in kw.items()), line=line)
             return [(p, Sym("new:" + ci.name, tuple(pos) + tuple(Sym("kw:" + k, (v,)) for k, v in sorted(kw.items()))))]
         r = ci.find_method("__init__")
@@ -1537,6 +1670,17 @@ class Frame:
         return [(q, Sym("instance", ())) for q, _ in fr_res]
 
 
+def _walk_own(fn):
+    """nodes of a function body without nested defs/lambdas"""
+    stack = list(fn.body)
+    while stack:
+        n = stack.pop()
+        yield n
+        if isinstance(n, (ast.FunctionDef, ast.AsyncFunctionDef, ast.Lambda, ast.ClassDef)):
+            continue
+        stack.extend(ast.iter_child_nodes(n))
+
+
 # ----------------------------------------------------------------- helpers
 class _Sentinel:
     def __repr__(self):
@@ -1554,6 +1698,19 @@ MISSING = _Sentinel()
 
 def strip_ensure(t: Term) -> Term:
     return t
+
+
+def _is_subterm(t: Term, outer: Term, _d: int = 0) -> bool:
+    """Is ``t`` (by identity of its key) a strict sub-term of the New term ``outer``?"""
+    if _d > 8 or not isinstance(outer, New):
+        return False
+    k = t.key()
+    for v in outer.attrs.values():
+        if v.key() == k:
+            return True
+        if isinstance(v, New) and _is_subterm(t, v, _d + 1):
+            return True
+    return False
 
 
 def _has_child_leaf(t: Term, _d: int = 0) -> bool:
@@ -1693,6 +1850,7 @@ def analyse_method(ctx: Ctx, cls: ClassInfo, name: str) -> List[Path]:
     for n in names[1:]:
         env[n] = Sym(n)
     ctx.unfolding.append((cls.qualname, name))
+    ctx.root_cls = cls
     try:
         return fr.run_function(fn, env, Path())
     finally:
